@@ -268,7 +268,7 @@ func typeSerializer(t dsl.Type, contextNamespace string, namedType *dsl.NamedTyp
 			}
 
 			unionClassName, typeParameters := common.UnionClassName(t)
-			if namedType != nil {
+			if common.IsUnionOfNamedType(namedType, t) {
 				unionClassName = namedType.Name
 				if namedType.Namespace != contextNamespace {
 					unionClassName = fmt.Sprintf("%s.%s", common.NamespaceIdentifierName(namedType.Namespace), unionClassName)
